@@ -30,9 +30,12 @@ class Module:
         self.relpath = relpath
         self.src = src
         self.tree = ast.parse(src, filename=relpath)
+        normalise_comparisons(self.tree)
         self.funcs = {}  # qualname -> FunctionDef
         self.classes = {}  # qualname -> ClassDef
         self._index(self.tree, "", None)
+        from . import localnames
+        self.locals_recovered = localnames.recover(self)
         for node in ast.walk(self.tree):
             for child in ast.iter_child_nodes(node):
                 child._parent = node
@@ -237,13 +240,61 @@ def in_block(node, block):
     return False
 
 
+_FLIP = {ast.Gt: ast.Lt, ast.GtE: ast.LtE}
+
+
+def normalise_comparisons(tree):
+    """`a > b` -> `b < a`, `a >= b` -> `b <= a` (in place): one spelling per ordering comparison, so
+    that no rule depends on which way round a comparison happens to be written."""
+    for n in ast.walk(tree):
+        if isinstance(n, ast.Compare) and len(n.ops) == 1 and type(n.ops[0]) in _FLIP:
+            n.left, n.comparators[0] = n.comparators[0], n.left
+            n.ops[0] = _FLIP[type(n.ops[0])]()
+    return tree
+
+
+_canon_cache = {}
+
+
+def canon_text(s):
+    """Canonical spelling of a Python expression/statement given as text (comparison direction, quotes,
+    parentheses, whitespace); the text itself if it does not parse."""
+    c = _canon_cache.get(s)
+    if c is None:
+        try:
+            c = " ".join(ast.unparse(normalise_comparisons(ast.parse(s))).split())
+        except (SyntaxError, ValueError, RecursionError):
+            c = s
+        _canon_cache[s] = c
+    return c
+
+
+class CText(str):
+    """Text of a construct of the analysed (normalised) tree. Comparing it with a literal canonicalises
+    the literal first, so a rule may spell `n > 0` or `0 < n` alike."""
+    __slots__ = ()
+
+    def __eq__(self, other):
+        if isinstance(other, str) and not isinstance(other, CText):
+            return str.__eq__(self, canon_text(other)) or str.__eq__(self, other)
+        return str.__eq__(self, other)
+
+    def __ne__(self, other):
+        return not self.__eq__(other)
+
+    __hash__ = str.__hash__
+
+    def __contains__(self, sub):
+        return str.__contains__(self, sub) or (isinstance(sub, str) and str.__contains__(self, canon_text(sub)))
+
+
 def unparse(node, limit=160):
     try:
         s = ast.unparse(node)
     except Exception:  # pragma: no cover
         s = ast.dump(node)
     s = " ".join(s.split())
-    return s if len(s) <= limit else s[: limit - 3] + "..."
+    return CText(s if len(s) <= limit else s[: limit - 3] + "...")
 
 
 def stmt_head(stmt, limit=120):
@@ -484,3 +535,36 @@ def call_attr(call):
     if isinstance(f, ast.Name):
         return f.id
     return None
+
+
+def same_items(got, want):
+    """multiset equality of texts, using CText's canonicalising equality"""
+    got, want = list(got), list(want)
+    if len(got) != len(want):
+        return False
+    for w in want:
+        for i, g_ in enumerate(got):
+            if g_ == w:
+                del got[i]
+                break
+        else:
+            return False
+    return True
+
+
+def block_texts(stmts):
+    return [unparse(s_) for s_ in stmts]
+
+
+def has_stmt(stmts, text):
+    """some top-level statement of the block has this (canonical) text"""
+    return any(unparse(s_, 400) == text for s_ in stmts)
+
+
+def subseq(stmts, texts):
+    """the given statement texts occur in the block in this order (other statements may be interleaved)"""
+    i = 0
+    for s_ in stmts:
+        if i < len(texts) and unparse(s_, 400) == texts[i]:
+            i += 1
+    return i == len(texts)
